@@ -582,7 +582,9 @@ theorem step_good (t : Tbl) (op : Op) (hg : Good t.info) : Good (step t op).1.in
   | setAllUnits us => simpa [step, setAllUnits] using setUnits_good t.info t.frame _ hg
   | setColUnit n u =>
     by_cases hc : n ∈ t.frame.names
-    · simpa [step, setColUnit, hc] using setUnits_good t.info t.frame [(n, u)] hg
+    · by_cases hd : dupLabel t.frame n = true
+      · simpa [step, setColUnit, hc, hd] using hg
+      · simpa [step, setColUnit, hc, hd] using setUnits_good t.info t.frame [(n, u)] hg
     · simpa [step, setColUnit, hc] using hg
   | rewrap us st =>
     unfold step rewrap
